@@ -86,6 +86,12 @@ def check_iteration(s, cls, train_name):
         m = bind_args(ft, T[2], T[3])
         s.ob("C10.2", con + tag, m.get("policy") == ("attr", state, "policy") and m.get("opt_state") == ("attr", state, "opt_state"),
              "training starts from state.policy / state.opt_state", loc, key="train-inputs", detail=show(T, maxlen=200))
+        if isinstance(ss, tuple) and ss[0] == "item":
+            want_buf = ("item", ss[1], 1)  # on-policy: the rollout returned by the same collection call
+        else:
+            want_buf = ("attr", ss, "buffer")  # off-policy: the replay buffer of the NEW step state
+        s.ob("C10.2", con + tag, m.get("buffer") == want_buf, "training consumes the data of this iteration's collection (not the previous state's)", loc, key="train-data",
+             detail=show(m.get("buffer", NONE), maxlen=160), necessary_for="each iteration learns from the steps it just consumed")
         yield tag, f, T, m
     if cases != {True, False}:
         raise AnalysisError(f"{con}: expected single- and multi-environment cases")
